@@ -751,7 +751,7 @@ def run(ctx) -> None:
                 runs.append((case, [("script", sc_)], res))
         for fam in FORK_FAMILIES[2][:2]:
             case = {"ops": OPSETS[1], "clock": "frozen", "topology": "shared", "procs": [[], [0, 1]], "fork": fam}
-            for dev, res in explore(ctx, case, 2, 6 if quick else 80):
+            for dev, res in explore(ctx, case, 2, 6 if quick else 40):
                 runs.append((case, dev, res))
         # 5b. two committers in two processes (and both in one worker process): bounded-preemption enumeration
         for ops in (OPSETS[:4] if quick else OPSETS):
